@@ -198,6 +198,32 @@ def execute(sc):
             # no validator argument: the application-wide data validator is the one in force (documented default)
             the_app.data_validator = validator
             kw = {}
+        if sc.get('abandon_first') is not None:
+            # an earlier consumer of the same object on this application stopped after a few segments (left its loop and closed the
+            # generator, or its task was cancelled in the middle): the fetch that follows is a fetch like any other
+            async def earlier():
+                got_ = 0
+                g_ = segment_fetcher(the_app, list(prefix), timeout=100, retry_times=sc['retry'], validator=validator)
+                try:
+                    async for _c in g_:
+                        got_ += 1
+                        if got_ >= sc['abandon_first'][1] and sc['abandon_first'][0] == 'break':
+                            break
+                finally:
+                    try:
+                        await g_.aclose()
+                    except BaseException:   # noqa
+                        pass
+            et = asyncio.ensure_future(earlier())
+            if sc['abandon_first'][0] == 'cancel':
+                await asyncio.sleep(0.0005 + 0.001 * sc['abandon_first'][1])
+                et.cancel()
+            await asyncio.gather(et, return_exceptions=True)
+            await asyncio.sleep(0.3)         # (every Interest of the abandoned fetch has run out)
+            R['requests'].clear()
+            seen.clear()
+            vcount[0] = 0
+            R.pop('validated_names', None)
         try:
             async for c in segment_fetcher(the_app, name_arg, timeout=100, retry_times=sc['retry'], **kw):
                 R['yielded'].append(None if c is None else bytes(c))
@@ -584,6 +610,12 @@ def run(ctx):
         sc.update(n=n_long, disc_answer=rng.choice([0, 0, 129]), loss={'128': 1, '255': 1} if n_long < 1000 else {}, fault=None, marker=rng.choice(['every', 'last', 'estimate']))
         scripts.append(sc)
         ctx.event('object-longer-than-128-segments')
+    for how in ('break', 'cancel'):
+        for k_ in (0, 1, 2, 4):
+            sc = gen_script(rng)
+            sc.update(n=rng.choice([3, 5, 8]), disc_answer=0, loss={}, fault=None, abandon_first=(how, k_), validator_via='argument', validator_form='function')
+            scripts.append(sc)
+            ctx.event('fetch-after-an-abandoned-fetch-of-the-same-object')
     for sc in scripts:
         R, S = execute(sc)
         judge(ctx, sc, R, S)
@@ -598,7 +630,7 @@ def run(ctx):
     for sc in templates + [gen_concurrent(rng) for _ in range(ctx.n(250, 80000))]:
         obs, S = execute_concurrent(sc)
         judge_concurrent(ctx, sc, obs, S)
-    for k in ('object-longer-than-128-segments', 'marker-estimate', 'marker-other-type', 'marker-early-only', 'freshness-None', 'freshness-0', 'outcome-done', 'outcome-timeout', 'outcome-nack', 'outcome-valfail', 'concurrent-fetch', 'concurrent-outcome-done', 'concurrent-outcome-timeout',
+    for k in ('fetch-after-an-abandoned-fetch-of-the-same-object', 'object-longer-than-128-segments', 'marker-estimate', 'marker-other-type', 'marker-early-only', 'freshness-None', 'freshness-0', 'outcome-done', 'outcome-timeout', 'outcome-nack', 'outcome-valfail', 'concurrent-fetch', 'concurrent-outcome-done', 'concurrent-outcome-timeout',
               'concurrent-data-shared-between-fetchers', 'one-shot-name-with-lost-discovery', 'validator-via-app-default', 'content-type-omitted', 'validator-form-lambda', 'validator-form-object', 'validator-form-partial'):
         ctx.need_event(k)
     ctx.assumptions = ['an object without any final-block marker is outside the statement', 'the legacy front-end is the one segment_fetcher uses']
